@@ -22,7 +22,7 @@ HARNESSES = [
   'property': 'C08',
   'src': 'c08_manifest.cxx',
   'entry': 'harness_c08_stringify',
-  'tus': _TUS, 'skip_ctors': _SKIP, 'tuflags': _TUF, 'models': ['noinline.c'], 'cut': _CUT_HEAP_STRINGS,
+  'tus': _TUS, 'skip_ctors': _SKIP, 'cut': _CUT_HEAP_STRINGS,
   'desc': 'CPPManifest::stringify (the # operator) against a reference written from C11 6.10.3.2p2',
   'domain': 'every argument spelling of length 0..LMAX over {a, space, ", \', \\} whose string/char literals are closed',
   'oracle': 'result == quote + spelling with \\ inserted before each " and \\ inside string/char literals (delimiting " included) + quote',
@@ -32,7 +32,7 @@ HARNESSES = [
   'property': 'C08',
   'src': 'c08_manifest.cxx',
   'entry': 'harness_c08_stringify',
-  'tus': _TUS, 'skip_ctors': _SKIP, 'tuflags': _TUF, 'models': ['noinline.c'], 'cut': _CUT_HEAP_STRINGS,
+  'tus': _TUS, 'skip_ctors': _SKIP, 'cut': _CUT_HEAP_STRINGS,
   'hflags': ['-DEXCLUDE_OTHER_QUOTE'],
   'desc': 'as c08_stringify, with the class of the known deviation excluded (a literal containing the quote character of the other kind, '
           "e.g. \"it's\" or '\"'), so that the rest of the input space is still decided",
@@ -44,7 +44,7 @@ HARNESSES = [
   'property': 'C08',
   'src': 'c08_manifest.cxx',
   'entry': 'harness_c08_extract_args',
-  'tus': _TUS, 'skip_ctors': _SKIP, 'tuflags': _TUF, 'models': ['noinline.c'], 'cut': _CUT_HEAP_STRINGS + _CUT_VEC_REALLOC,
+  'tus': _TUS, 'skip_ctors': _SKIP, 'cut': _CUT_HEAP_STRINGS + _CUT_VEC_REALLOC,
   'desc': 'CPPManifest::extract_args (argument splitting of a function-like macro call in #if / pre-expansion text)',
   'domain': 'every call text of length 0..AMAX over {( ) , " a space} that starts (after blanks) with ( and has a matching ), literals closed',
   'oracle': 'arguments == reference split at top-level commas only, blanks trimmed, empty arguments kept; position just past the matching )',
